@@ -32,6 +32,7 @@ def wellFormed (inp : Bytes) (svcOK : Bool) : Option Nat :=
   else
     let dl := getBE inp 12 16
     if inp.length < 16 + dl then none
+    else if 16 + dl ≥ 4294967296 then none    -- (the codec computes the frame length in uint32)
     else
       let flag := byteAt inp 2
       let isReq := flag / 128 % 2 == 1
@@ -70,11 +71,15 @@ def parse (inp : Bytes) : Option Parsed :=
   if inp.length < 4 then none
   else
     let ml := getBE inp 0 4
-    if inp.length < 4 + ml ∨ ml < 21 then none
+    if inp.length < 4 + ml then none
+    else if ml < 21 then none
+    else if 4 + ml ≥ 4294967296 then none                -- (the codec computes the frame length in uint32)
     else
       let sl := getBE inp 13 17
-      if sl ≥ 2147483648 ∨ ml < 21 + sl then none
-      else if getBE inp 6 10 != ml ∨ getBE inp 10 12 != 21 + sl then none
+      if sl ≥ 2147483648 then none
+      else if ml < 21 + sl then none
+      else if getBE inp 6 10 ≠ ml then none              -- inner message length = outer message length
+      else if getBE inp 10 12 ≠ 21 + sl then none        -- header length = magic … request id
       else some { total := 4 + ml, svc := slice inp 17 (17 + sl), idPos := 17 + sl,
                   id := getBE inp (17 + sl) (25 + sl), payload := slice inp (25 + sl) (4 + ml) }
 
